@@ -33,7 +33,8 @@ func (p *Prog) errProducer(c *ssa.CallCommon) bool {
 		}
 		name := extName(g)
 		if hasPrefixAny(name, "encoding/xml.", "(*encoding/xml.", "encoding/json.", "(*encoding/json.", "encoding/gob.", "(*encoding/gob.",
-			"os.", "(*os.File).", "io.", "(*bytes.Buffer).Write", "(*strings.Builder).Write", "(*bufio.", "regexp.Compile") {
+			"os.", "(*os.File).", "io.", "(*bufio.", "regexp.Compile") {
+			// (*bytes.Buffer).Write* and (*strings.Builder).Write* are documented to always return a nil error: no obligation
 			return true
 		}
 		return false
